@@ -205,7 +205,12 @@ where
 
     // Families of cut sets over the body.
     let mut cut_sets: Vec<Vec<usize>> = Vec::new();
-    if exhaustive {
+    if exhaustive && cfg!(miri) && n > 12 {
+        // The interpreter is ~1000x slower: a sample of single cuts instead of all of them.
+        for _ in 0..6 {
+            cut_sets.push(vec![rng.usize_below(n + 1)]);
+        }
+    } else if exhaustive {
         for i in 0..=n {
             cut_sets.push(vec![i]);
         }
@@ -214,7 +219,7 @@ where
         for stride in [2usize, 3] {
             cut_sets.push((1..n).filter(|i| i % stride == 0).collect());
         }
-        for _ in 0..5 {
+        for _ in 0..(if cfg!(miri) { 1 } else { 5 }) {
             let m = rng.range(2, 8.min(n.max(2) as u64)) as usize;
             let mut cs: Vec<usize> = (0..m).map(|_| rng.usize_below(n + 1)).collect();
             cs.sort();
@@ -328,16 +333,16 @@ pub fn run(s: &mut Session) {
     let np = probes.len() as u64;
 
     let cases = s.args.budget(8_000, 400_000);
-    s.part(
+    if crate::want(s, "typed-roundtrip") { s.part(
         "typed-roundtrip",
         "typed values (21 built-in Form types, 12 derived): parse_recognize::<T>(print_x(v)) == v exactly for the three printers; every case non-trivial; distinct by (type, value)",
         false,
         cases,
         |i, rng, out| probes[(i % np) as usize].roundtrip(rng, out),
-    );
+    ); }
 
     let cases = s.args.budget(8_000, 400_000);
-    s.part(
+    if crate::want(s, "value-fixpoint") { s.part(
         "value-fixpoint",
         "arbitrary model Values (boundary primitives, arbitrary attr names / slot keys, depth <= 64): every printer's output parses; the parsed value v1 (parser-produced) comes back exactly through all three printers (so f(f(v)) == f(v)); non-trivial when v is a record or text; distinct by value",
         false,
@@ -387,10 +392,10 @@ pub fn run(s: &mut Session) {
                 out.set_sample(json!({"value": clip(&format!("{v:?}")), "printed": clip(&print_with(0, &v))}));
             }
         },
-    );
+    ); }
 
     let cases = s.args.budget(12_000, 600_000);
-    s.part(
+    if crate::want(s, "text-roundtrip") { s.part(
         "text-roundtrip",
         "grammar-generated texts (random styles, 40% char-mutated, <= 4 KiB): parse_recognize never panics; when it yields v, v comes back exactly through all three printers; non-trivial when the text is non-empty; distinct by text",
         false,
@@ -420,10 +425,10 @@ pub fn run(s: &mut Session) {
                 out.set_sample(json!({"text": clip(&text), "mutated": mutated}));
             }
         },
-    );
+    ); }
 
     let cases = s.args.budget(5_000, 250_000);
-    s.part(
+    if crate::want(s, "chunk-single-cut") { s.part(
         "chunk-single-cut",
         "texts (grammar, 30% mutated; 25% printed typed values decoded with their own recognizer): RecognizerDecoder and WithLenRecognizerDecoder fed the bytes cut at EVERY position 0..=n (for the framed decoder also inside the length header) give the one-shot parse_recognize result (same value, or no value when one-shot errors); two frames per run, both must be delivered; non-trivial when n >= 2; distinct by (type, text)",
         true,
@@ -436,10 +441,10 @@ pub fn run(s: &mut Session) {
                 check_chunkings::<Value>("Value", &text, true, true, rng, out);
             }
         },
-    );
+    ); }
 
     let cases = s.args.budget(6_000, 300_000);
-    s.part(
+    if crate::want(s, "chunk-multi-cut") { s.part(
         "chunk-multi-cut",
         "same inputs as chunk-single-cut under multi-cut chunkings: one byte at a time, strides 2 and 3, five random cut sets of 2-8 cuts (cuts fall inside multi-byte characters); non-trivial when n >= 2; distinct by (type, text)",
         false,
@@ -452,10 +457,10 @@ pub fn run(s: &mut Session) {
                 check_chunkings::<Value>("Value", &text, false, true, rng, out);
             }
         },
-    );
+    ); }
 
     let cases = s.args.budget(8_000, 400_000);
-    s.part(
+    if crate::want(s, "bytes-robust") { s.part(
         "bytes-robust",
         "byte-mutated texts (bit flips, stray UTF-8 lead/continuation bytes, truncation): valid UTF-8 goes through the chunking oracle; otherwise both decoders are fed the bytes whole and in random chunks: no panic, bounded decode calls, the framed decoder delivers exactly one result per frame and then decodes a following well-formed frame correctly; non-trivial when the bytes are not valid UTF-8; distinct by bytes",
         false,
@@ -537,7 +542,7 @@ pub fn run(s: &mut Session) {
                 }
             }
         },
-    );
+    ); }
 
     if s.args.extra_u64("depth-probe") == Some(1) {
         s.part(
